@@ -450,6 +450,10 @@ func report(prop, tier string, seed int, jobs []*Job, rep *replayer, P *Program,
 	if violations > 0 {
 		return 1
 	}
+	if strictMode && len(inconclusive) > 0 {
+		fmt.Println("SELFTEST-FAILED: inconclusive items in strict mode")
+		return 1
+	}
 	return 0
 }
 
